@@ -142,7 +142,7 @@ def run(ctx):
                         {"topology": topo, "nodes": nodes, "seed": seed, "returned": adj}))
 
     sizes = list(range(2, (16 if thorough else 12) + 1))
-    reps = 6 if thorough else 2
+    reps = 8 if thorough else 4
     for n in sizes:
         for rep in range(reps):
             nodes = rng.sample(POOL, n)
